@@ -22,7 +22,7 @@ RULE = ("(a) is_address_valid() compared with the reference predicate for all 65
         "type, length, destination class, origin class).")
 REQUIRED = {"predicate": 65537, "update_returns": 8000, "bounded_time": 8000,
             "invalid_dropped": 1500, "transmissions_explained": 8000, "lease_table_explained": 1500}
-BUDGET = {"quick": 150, "thorough": 600}
+BUDGET = {"quick": 480, "thorough": 900}
 EXHAUSTIVE = {"quick": "validity predicate over all 65536 values + None",
               "thorough": "validity predicate over all 65536 values + None"}
 
